@@ -16,7 +16,7 @@ pub const FLOORS: &[&str] = &[
     "two_loop_revisit", "removed_breakpoint_passed", "resume:continue", "resume:step", "resume:si",
     "resume:so", "loc:abs", "loc:label", "loc:pc", "break_before_first", "break_after_last",
     "break_doubled", "nondefault_origin", "trace_invariant_checked", "origin_below_statement_count", "pause_at_break_outside_image",
-    "reset_between_list_change_and_resume", "many_breakpoints", "break_with_label", "break_with_label_after_last", "pc_relative_breakpoint_after_eval_moved_the_pc", "breakpoints_a_power_of_two_apart", "word_under_a_breakpoint_patched", "breakpoint_32768_words_below_the_pc_or_a_label",
+    "reset_between_list_change_and_resume", "many_breakpoints", "break_with_label", "break_with_label_after_last", "pc_relative_breakpoint_after_eval_moved_the_pc", "breakpoints_a_power_of_two_apart", "word_under_a_breakpoint_patched", "breakpoint_32768_words_below_the_pc_or_a_label", "break_with_label_in_front_of_a_labelled_statement", "declared_breakpoint_removed_by_the_name_in_front_of_it",
 ];
 
 struct Loopy {
@@ -347,7 +347,16 @@ fn placement_case(seed: u64, i: u64) -> CaseOut {
         let end = items.iter().position(|it| matches!(it, Item::End)).unwrap_or(items.len());
         // a `.break` may stand where a label's statement would: `done .break` (the usual way to name the
         // end of a program) marks the following word with both
-        let it = if rng.chance(1, 3) {
+        let labelled: Vec<usize> = items[..end].iter().enumerate().filter(|(_, x)| matches!(x, Item::Stmt { label: Some(_), .. })).map(|(k, _)| k).collect();
+        let with_label = rng.chance(1, 3);
+        // (half of the labelled `.break`s stand in front of a statement that has a label of its own: two names, one address)
+        let at = if with_label && !labelled.is_empty() && rng.bool() {
+            out.class("break_with_label_in_front_of_a_labelled_statement");
+            *rng.pick(&labelled)
+        } else {
+            at
+        };
+        let it = if with_label {
             out.class(if at.min(end) == end || !items[at.min(end)..end].iter().any(|x| matches!(x, Item::Stmt { .. })) {
                 "break_with_label_after_last"
             } else {
@@ -370,6 +379,20 @@ fn placement_case(seed: u64, i: u64) -> CaseOut {
     let lay = if rng.bool() { Layout::canonical() } else { Layout::random(&mut rng) };
     let text = render(&program, &lay, &mut rng).text;
     let mut cmds = Vec::new();
+    // the names given to `.break`s are labels like any other: the breakpoint they sit on can be removed by name
+    let named: Vec<(String, u16)> = img.labels.iter().filter(|(n, _)| ["fin_", "Stop_", "zq_brk", "END_OF_IT"].iter().any(|p| n.starts_with(p)))
+        .map(|(n, idx)| (n.clone(), img.origin().wrapping_add(*idx as u16))).collect();
+    if !named.is_empty() && rng.bool() {
+        let (n, a) = rng.pick(&named).clone();
+        if a >= img.origin() && a < 0xFE00 {
+            cmds.push(Cmd::BreakRemoveLoc(Loc::Label(n.clone(), a, 0)));
+            cmds.push(Cmd::BreakList);
+            if rng.bool() {
+                cmds.push(Cmd::BreakAddLoc(Loc::Label(n, a, 1)));
+            }
+            out.class("declared_breakpoint_removed_by_the_name_in_front_of_it");
+        }
+    }
     for _ in 0..rng.below(8) {
         cmds.push(match rng.below(6) {
             0 | 1 | 2 => Cmd::Continue,
